@@ -334,19 +334,23 @@ OPLENS = (3, 12, 23, 24, 40)
 
 # ----------------------------------------------------------------------------- documents
 class Group:
-    __slots__ = ('oplens', 'comment', 'mid', 'layout', 'ops', 'addrs')
+    __slots__ = ('oplens', 'comment', 'mid', 'layout', 'ops', 'addrs', 'lay')
 
-    def __init__(self, oplens, comment, mid=(), layout='wrap'):
+    def __init__(self, oplens, comment, mid=(), layout='wrap', lay=None):
         self.oplens = tuple(oplens)
         self.comment = list(comment)        # tokens
         self.mid = [list(p) for p in mid if p]      # paragraphs above the first instruction
         self.layout = layout
+        self.lay = lay                      # source line layout of the comment (see lay_lines)
 
 
 class Entry:
-    __slots__ = ('tag', 'title', 'desc', 'regs', 'groups', 'end', 'addr')
+    __slots__ = ('tag', 'title', 'desc', 'regs', 'groups', 'end', 'addr', 'lay')
 
-    def __init__(self, tag, title, desc=(), regs=(), groups=(), end=()):
+    def __init__(self, tag, title, desc=(), regs=(), groups=(), end=(), lay=None):
+        # lay: source line layout (see lay_lines) of the annotations, keyed ('title', 0), ('desc', k), ('reg', k), ('start', k),
+        # ('mid', group index, k), ('end', k); annotations without a key are wrapped at the renderer's width
+        self.lay = dict(lay or {})
         self.tag = tag                                  # JSON-able description
         self.title = list(title)
         self.desc = [list(p) for p in desc if p]
@@ -389,6 +393,24 @@ def greedy_wrap(words, width):
     return lines
 
 
+def lay_lines(words, spec, in_width):
+    """The source lines of a word sequence.  spec None: greedy wrap at in_width; an int: greedy wrap at that width; a
+    sequence of word indexes: a new line starts before each of these words (an explicit layout)."""
+    if spec is None or isinstance(spec, int):
+        return greedy_wrap(words, in_width if spec is None else spec)
+    br = set(spec)
+    lines = []
+    cur = []
+    for i, w in enumerate(words):
+        if i in br and cur:
+            lines.append(' '.join(cur))
+            cur = []
+        cur.append(w)
+    if cur:
+        lines.append(' '.join(cur))
+    return lines
+
+
 def reg_field(style, prefix, name):
     full = (prefix + ':' if prefix else '') + name
     if style == 'delim':
@@ -403,18 +425,23 @@ def group_comment_lines(g, in_width):
     words = source_words(g.comment)
     # brace counting sees the whole source text, block markup included
     opening, closing = brace_wrapper(words, n, general=not brace_form_allowed(words, n))
+    spec = g.lay
     if not needs_braces(words, n):
-        lines = greedy_wrap(words, in_width)
+        lines = lay_lines(words, spec, in_width)
         return [lines]
     body = list(words)
     if body:
         if opening.endswith(' '):
             body = [opening.strip()] + body
+            if spec is not None and not isinstance(spec, int):
+                spec = [i + 1 for i in spec]        # the opening braces are a word of their own on the first line
         else:
             body[0] = opening + body[0]
     else:
         body = [opening]
-    if g.layout == 'first':
+    if spec is not None:
+        lines = lay_lines(body, spec, in_width)
+    elif g.layout == 'first':
         lines = [' '.join(body)]
     elif g.layout == 'each':
         lines = list(body)
@@ -445,27 +472,27 @@ def render_skool(entries, in_width=60, start=True):
         if ei:
             out.append('')
 
-        def paras(ps):
+        def paras(ps, *kind):
             for i, p in enumerate(ps):
                 if i:
                     out.append('; .')
-                for line in greedy_wrap(source_words(p), in_width):
+                for line in lay_lines(source_words(p), e.lay.get(kind + (i,)), in_width):
                     out.append('; ' + line)
-        for line in greedy_wrap(source_words(e.title), in_width):
+        for line in lay_lines(source_words(e.title), e.lay.get(('title', 0)), in_width):
             out.append('; ' + line)
         start_c = e.groups[0].mid
         if e.desc or e.regs or start_c:
             out.append(';')
             if e.desc:
-                paras(e.desc)
+                paras(e.desc, 'desc')
             else:
                 out.append('; .')
         if e.regs or start_c:
             out.append(';')
             if e.regs:
-                for style, prefix, name, d in e.regs:
+                for ri, (style, prefix, name, d) in enumerate(e.regs):
                     field = reg_field(style, prefix, name)
-                    lines = greedy_wrap(source_words(d), in_width)
+                    lines = lay_lines(source_words(d), e.lay.get(('reg', ri)), in_width)
                     out.append(('; ' + field + ' ' + (lines[0] if lines else '')).rstrip())
                     for line in lines[1:]:
                         out.append('; . ' + line)
@@ -473,11 +500,11 @@ def render_skool(entries, in_width=60, start=True):
                 out.append('; .')
         if start_c:
             out.append(';')
-            paras(start_c)
+            paras(start_c, 'start')
         first = True
         for gi, g in enumerate(e.groups):
             if gi and g.mid:
-                paras(g.mid)
+                paras(g.mid, 'mid', gi)
             per = group_comment_lines(g, in_width)
             for i, (op, data, ctl) in enumerate(g.ops):
                 lines = per[i] if i < len(per) else []
@@ -491,7 +518,7 @@ def render_skool(entries, in_width=60, start=True):
                 else:
                     out.append(head)
         if e.end:
-            paras(e.end)
+            paras(e.end, 'end')
     return '\n'.join(out) + '\n'
 
 
